@@ -881,6 +881,19 @@ def c03(rep, tier):
                 stored.append(0 if not e.get('args') else lit(e['args'][0]))
             elif is_call(e, '::resize') and e.get('args'):
                 stored.append(0 if len(e['args']) == 1 else lit(e['args'][1]))
+    if stored == [None] and cl.get('params'):
+        # createLabel(ProgramIndex initial = -1): the stored value is a parameter - the value every call site passes (the default)
+        pushed = [strip_casts(e['args'][0]) for e in walk_all_exprs(cl['body']) if is_call(e, '::push_back') and field_chain(e['obj'])[1][-1:] == ['labels'] and e.get('args')]
+        idx = [i for i, p_ in enumerate(cl['params']) if pushed and pushed[0].get('k') == 'ref' and pushed[0].get('d') == p_['d']]
+        if idx:
+            vals = set()
+            for f2, c2 in callers_of(m, 'GenState::createLabel'):
+                a_ = c2['args'][idx[0]] if len(c2.get('args', [])) > idx[0] else None
+                while a_ is not None and strip_casts(a_).get('k') == 'other' and strip_casts(a_).get('cls') == 'CXXDefaultArgExpr' and strip_casts(a_).get('children'):
+                    a_ = strip_casts(a_)['children'][0]
+                vals.add(lit(a_) if a_ is not None else None)
+            if len(vals) == 1 and None not in vals:
+                stored = [vals.pop()]
     tested = []
     for f2 in m.all_fns():
         for e in walk_all_exprs(f2['body']):
@@ -923,17 +936,19 @@ def c03(rep, tier):
             okk = False
             for a in asg:
                 member = field_chain(a['l'])[1][-2]
-                r = strip_casts(a['r'])
+                r = strip_casts(m.origin(fn_, a['r']) if strip_casts(a['r']).get('k') == 'ref' else a['r'])
                 if r.get('k') == 'bin' and r['op'] == '-':
                     tgt = m.origin(fn_, r['l'])
                     if is_call(tgt, '::operator[]') and field_chain(tgt['obj'])[1][-1:] == ['labels']:
                         lab = m.origin(fn_, tgt['args'][0])
                         labm = field_chain(lab)[1]
                         okk = labm[-1:] == ['offset'] and len(labm) >= 2 and labm[-2] == member and member == {'JMP': 'jmp', 'JMPC': 'jmpc'}.get(opn)
+                elif r.get('k') == 'call' and (r.get('callee_in_repo') or r.get('callee_lambda_id')):
+                    okk = None         # the formula is in a helper: decided on the copy with the helper put back
             out[opn] = okk
         return out
     kinds = patch_kinds(bpf)
-    if not kinds:
+    if not kinds or any(v is None for v in kinds.values()):
         # the formula in a local lambda or helper taking the offset field by reference: resolve(ins.parameters.jmp.offset, loc)
         from .inline import inlined
         bpf2, names_ = inlined(m.facts, bpf, rounds=2, single_use=False, want=lambda h, call: h['q'] not in ('GenState::backpatchErr', 'GenState::err'))
@@ -993,7 +1008,7 @@ def c03(rep, tier):
                     for opn, member in ct.items():
                         kinds[opn] = okf and member == {'JMP': 'jmp', 'JMPC': 'jmpc'}.get(opn)
     for opn in ('JMP', 'JMPC'):
-        if opn not in kinds:
+        if opn not in kinds or kinds[opn] is None:
             G.unknown('backpatch: %s' % opn, 'the rewriting of %s offsets has a shape that is not recognised' % opn, W(m, bpf))
         else:
             G.check(kinds.get(opn) is True, 'backpatch: %s' % opn, 'offset := labels[old operand] - position, through the member of that opcode',
@@ -1213,6 +1228,18 @@ def c08(rep, tier):
                           'under the current location', floor=4)
     bp = m.fn('GenState::breakpoint')
     rep.analysed(bp)
+    # the index is the position getNextPos() gave before emit(): emit() appends exactly one instruction, its argument, on every path
+    em = m.fn('GenState::emit')
+    rep.analysed(em)
+    gem = m.cfg(em)
+    epush = [ev for ev in gem.calls() if m.callee(ev.e).split('::')[-1] in ('push_back', 'emplace_back') and field_chain(ev.e.get('obj'))[1][-1:] == ['code']]
+    okem = len(epush) == 1 and gem.on_all_paths(epush[0]) and em.get('params') and \
+        any(y.get('k') == 'ref' and y.get('d') == em['params'][0]['d'] for y in walk_expr(epush[0].e['args'][0]))
+    cond_em = ['%s is %s' % (show(c)[:80], str(lab).lower()) for ev in epush for c, lab, cn in gem.guards_of(ev) if isinstance(lab, bool)]
+    A.check(bool(okem), 'GenState::emit', 'appends its argument to the program on every path',
+            ('emit() %s: the tables record a site at a position where another instruction ends up - arming that line overwrites a real instruction' % (
+                ('appends the instruction only when %s' % cond_em[0]) if cond_em else 'does not append exactly its argument on every path')), W(m, em),
+            witness={'input': 'any program, compiled under the condition, then a breakpoint on any line'} if not okem else None)
 
     def touches_tables(fx):
         txt = ' '.join(show(x) for x in walk_all_exprs(fx['body']))
@@ -1651,6 +1678,44 @@ def c16(rep, tier):
                     m.callee(e).split('::')[-1] in ('insert', 'emplace', 'insert_or_assign', 'try_emplace', 'erase', 'clear', 'swap', 'operator='):
                 O1.check(f['q'] == 'GenState::popSymbols', '%s: funcAddrs.%s' % (f['q'], m.callee(e).split('::')[-1]), 'registration',
                          'routine table modified outside popSymbols', W(m, f, e))
+    # ... nor is a field of an existing record changed in place (through funcAddrs[k].x, an iterator from find() or a reference)
+    def record_in_table(f_, e, depth=0):
+        e = strip_casts(e)
+        while e is not None and depth < 12:
+            depth += 1
+            k = e.get('k')
+            if k == 'member':
+                e = strip_casts(e['base'])
+            elif k == 'paren' or (k == 'un' and e.get('op') == '*'):
+                e = strip_casts(e['e'])
+            elif k == 'call' and e.get('obj') is not None and (e.get('callee') or '').split('::')[-1] in ('operator[]', 'at', 'find'):
+                return table_of(e['obj'])[0] == 'funcAddrs'
+            elif k == 'call' and e.get('obj') is not None and (e.get('callee') or '').split('::')[-1] in ('operator->', 'operator*'):
+                e = strip_casts(e['obj'])
+            elif k == 'ref' and e.get('dk') == 'var':
+                decl = [v for st in walk_stmts(f_['body']) if st['k'] == 'decl' for v in st['vars'] if v.get('d') == e.get('d')]
+                cty = (e.get('cty') or '')
+                if not decl or not (decl[0].get('is_ref') or 'iterator' in cty.lower() or cty.rstrip().endswith('*')):
+                    return False       # a copy of the record
+                o = m.origin(f_, e)
+                if o is None or o is e:
+                    return False
+                e = strip_casts(strip_copies(o)) if not decl[0].get('is_ref') else strip_casts(o)
+            else:
+                return False
+        return False
+    for f in m.all_fns():
+        for e in walk_all_exprs(f['body']):
+            tgt = None
+            if e.get('k') == 'assign':
+                tgt = strip_casts(e['l'])
+            elif e.get('k') == 'un' and e.get('op') in ('++', '--'):
+                tgt = strip_casts(e['e'])
+            if tgt is not None and tgt.get('k') == 'member' and tgt.get('name') not in ('second', 'first') and record_in_table(f, tgt):
+                O1.check(f['q'] == 'GenState::popSymbols', '%s: %s = ...' % (f['q'], show(tgt)[:50]), 'records change only when a routine is finished',
+                         'a record of the routine table is changed in place outside popSymbols: a name can resolve to a routine whose generation is not '
+                         'finished (a redefinition that calls its own name is accepted and recurses)', W(m, f, e),
+                         witness={'input': 'PROGRAM f IN a DO x0 := a END; PROGRAM f IN a DO x0 := f(a) END; x1 := f(1)'} if f['q'] != 'GenState::popSymbols' else None)
     # std::map::operator[] inserts: a mere *read* funcAddrs[name] registers an empty record for an unknown name
     for f in m.all_fns():
         gg = None
